@@ -9,7 +9,6 @@ import (
 	"log"
 	"net/url"
 	"os"
-	"path/filepath"
 	"strings"
 	"sync"
 
@@ -78,10 +77,9 @@ type serveOut struct {
 // realBasic builds the scheme auth.LoadAuthSchemes gives for `proxy.auth = name=basic;type=basic;file=…` — the real
 // auth/basic.go on an htpasswd file holding the secrets in plain form (go-htpasswd's last parser accepts them) — so
 // that what the gate does to the request on its way to the upstream is the code's, not a stand-in's. One scheme per
-// set of secrets and harness process; the files live in a directory of their own that the process creates.
+// set of secrets and harness process; the file exists only while the scheme is being loaded.
 var (
 	basicMu    sync.Mutex
-	basicDir   string
 	basicCache = map[string]map[string]auth.AuthScheme{}
 )
 
@@ -102,20 +100,19 @@ func realBasic(secrets [][2]string) (map[string]auth.AuthScheme, error) {
 	if sch, ok := basicCache[file.String()]; ok {
 		return sch, nil
 	}
-	if basicDir == "" {
-		d, err := os.MkdirTemp("", "fvh-c07-htpasswd-")
-		if err != nil {
-			return nil, err
-		}
-		basicDir = d
-	}
-	path := filepath.Join(basicDir, fmt.Sprintf("htpasswd-%d", len(basicCache)))
-	if err := os.WriteFile(path, []byte(file.String()), 0600); err != nil {
+	f, err := os.CreateTemp("", "fvh-c07-htpasswd-")
+	if err != nil {
 		return nil, err
+	}
+	path := f.Name()
+	_, werr := f.WriteString(file.String())
+	f.Close()
+	defer os.Remove(path) // read once by LoadAuthSchemes (no refresh interval): nothing is left behind
+	if werr != nil {
+		return nil, werr
 	}
 	sch, err := auth.LoadAuthSchemes(map[string]config.AuthScheme{
 		"basic": {Name: "basic", Type: "basic", Basic: config.BasicAuth{Realm: "verif", File: path}}})
-	os.Remove(path) // read once (no refresh interval): nothing is left behind
 	if err != nil {
 		return nil, err
 	}
